@@ -28,7 +28,8 @@ ASSUMPTIONS = [
 ]
 FLOORS = {
     "quick": {"accepted": 5000, "structure-compared": 5000, "accepted-rich": 1000,
-              "entry-accepted:file": 1000, "entry-accepted-with-CR": 100},
+              "entry-accepted:file": 1000, "entry-accepted-with-CR": 100,
+              "str-with-lone-surrogate-runs": 200},
     "thorough": {"accepted": 100000, "structure-compared": 100000, "accepted-rich": 20000,
                  "entry-accepted:file": 10000, "entry-accepted-with-CR": 1000},
 }
@@ -39,9 +40,10 @@ def plan(tier, seed):
     return pwork.plan(tier, seed)
 
 
-def evaluate(data):
-    """-> (accepted?, list of (sig, detail)), info"""
-    o = lab.parse(data)
+def evaluate(data, as_text=None):
+    """-> (accepted?, list of (sig, detail)), info.  as_text: the str handed to parse()
+    while `data` (its octets) is what the reference lexer reads."""
+    o = lab.parse(data if as_text is None else as_text)
     if o.verdict() is not True:
         return o, None, None
     lr = rsieve.lex(data)
@@ -145,6 +147,31 @@ def _tree_or_verdict(o):
         return ("too-deep",)
 
 
+def check_surrogate_text(data, res):
+    """The script as a str with a lone surrogate put inside its first quoted string (text
+    read with errors="surrogateescape").  If parse(str) accepts it, the tree must still say
+    what the text says (reference: the surrogate-passed octets read by R-SIEVE)."""
+    i = data.find(b'"')
+    if i < 0:
+        return
+    try:
+        text = data.decode("utf-8")
+    except UnicodeDecodeError:
+        return
+    k = len(data[:i + 1].decode("utf-8"))
+    text = text[:k] + "\udce9" + text[k:]
+    src = text.encode("utf-8", "surrogatepass")
+    o, viols, mode = evaluate(src, as_text=text)
+    res.count("str-with-lone-surrogate-runs")
+    if viols is None:
+        return
+    res.count("str-with-lone-surrogate-accepted")
+    res.monitor("oracle-1-conservation", bool(viols))
+    for sig, detail in viols[:1]:
+        res.violation(dict(sig, input_kind="str-with-lone-surrogate"),
+                      {"input": src, "as_str": repr(text)[:300], "detail": detail})
+
+
 def check_entry_points(data, o, res):
     """The tree must not depend on the public entry point the script came through:
     parse(bytes) (reference), parse(str), parse_file(path)."""
@@ -197,6 +224,8 @@ def check_case(label, data, info, res: Result):
     if SHARED["tmp"] and (label in ("long", "replay") or SHARED["n"] % 16 == 0 or (
             b"\r" in data and label != "tok" and o.verdict() is True)):
         check_entry_points(data, o, res)
+        if o.verdict() is True and SHARED["n"] % 16 == 0:
+            check_surrogate_text(data, res)
     if SHARED["parser"] is not None:
         # same input through a Parser reused across the whole shard: same tree expected
         if SHARED.get("other") is not None and SHARED["prev"] is not None:
